@@ -598,7 +598,7 @@ fn generate_expr(expr: OptimizedExpr) -> TokenStream {
                 quote! {
                     state.sequence(|state| {
                         state.optional(|state| {
-                            #expr.and_then(|state| {
+                            #expr.and_then(|state| state.tag_node(#tag)).and_then(|state| {
                                 state.repeat(|state| {
                                     state.sequence(|state| {
                                         super::hidden::skip(
@@ -608,7 +608,7 @@ fn generate_expr(expr: OptimizedExpr) -> TokenStream {
                                         })
                                     })
                                 })
-                            }).and_then(|state| state.tag_node(#tag))
+                            })
                         })
                     })
                 }
